@@ -281,7 +281,7 @@ def run(ctx):
         closed_names = ["cs2", "cs3", "cuboctahedron", "truncated_cube", "truncated_octahedron", "rhombicuboctahedron"]
     with ThreadPoolExecutor(max_workers=2) as tp:
         fut_faces = tp.submit(gen_faces, ctx, plans, w_small)
-        fut_closed = tp.submit(gen_closed, ctx, closed_names, w_small)
+        fut_closed = tp.submit(lambda: (time.sleep(0.07), gen_closed(ctx, closed_names, w_small))[1])  # offset: file stamps
         X.warm_up()
         by_patch_list = fut_faces.result()
         closed = fut_closed.result()
@@ -327,7 +327,7 @@ def run(ctx):
         rng.shuffle(g)
         sel += [dict(f, full=True) for f in g[:per]]
         sel += [dict(f, full=False) for f in g[per : per + per_rot]]
-    orbits = gen_orbits(ctx, sel, w_big, sensitive=thorough or True)
+    orbits = gen_orbits(ctx, sel, w_big, sensitive=True)
     # ---- 4. replay
     t0 = time.time()
     face_recs = _flatten(pmap(X.bulk_chunk, [{"faces": c} for c in _chunks(faces, 400)]))
